@@ -386,7 +386,7 @@ Definition push_auth_jar (w : world) (jx : jworld) (n : nat) (now : Z) (r : preq
 
 (* ---- POST /bc-authorize ---- *)
 (* validateCIBARequest onwards (as in Authorize.init_back_auth) *)
-Definition back_tail (w : world) (n : nat) (now : Z) (c : client) (p : params) (r : breq) : prog out :=
+Definition back_tail (w : world) (n : nat) (now : Z) (c : client) (p : params) (rc : option aerr) (both : bool) (r : breq) : prog out :=
   let cfg := w_cfg w in
   if negb (has_grant GCiba (c_grants c)) then Ret (OErr EUnauthorizedClient) else
   if andb (cf_openid_required cfg) (negb (contains_openid (p_scopes p))) then Ret (OErr EInvalidScope) else
@@ -394,7 +394,7 @@ Definition back_tail (w : world) (n : nat) (now : Z) (c : client) (p : params) (
   if andb (negb (is_empty (p_user_code p))) (negb (andb (cf_ciba_user_code cfg) (c_user_code c)))
   then Ret (OErr EInvalidRequest) else
   if is_empty (p_login_hint p) then Ret (OErr EInvalidRequest) else
-  match validate_optionals cfg p c with
+  match validate_optionals_x cfg p c rc both with
   | Some (ALocal e) | Some (ARedirect e _) => Ret (OErr e)
   | None =>
     match (match c_ciba_mode c with CibaPush => validate_binding cfg c (br_bind r) no_opts | _ => None end) with
@@ -413,15 +413,12 @@ Definition back_tail (w : world) (n : nat) (now : Z) (c : client) (p : params) (
     end
   end.
 
-(* cibaAuthnSessionWithJAR: the parameters outside the object are not looked at *)
-Definition ciba_jar_decision (jc : jcfg) (c : client) (jcl : jclient) (obj : option req_object) : ecode + params :=
+(* cibaAuthnSessionWithJAR: the parameters outside the object are not looked at; a request or
+   request_uri claim inside is only seen by validateParamsAsOptionals *)
+Definition ciba_jar_decision (jc : jcfg) (c : client) (jcl : jclient) (obj : option req_object) : ecode + jar_req :=
   match obj with
   | None => inl EInvalidRequest
-  | Some o =>
-    match resolve_ciba_jar jc (c_id c) jcl o with
-    | inl e => inl e
-    | inr j => inr (jr_params j)
-    end
+  | Some o => resolve_ciba_jar jc (c_id c) jcl o
   end.
 
 Definition init_back_auth_jar (w : world) (jx : jworld) (n : nat) (now : Z) (r : breq) (obj : option req_object) : prog out :=
@@ -435,7 +432,8 @@ Definition init_back_auth_jar (w : world) (jx : jworld) (n : nat) (now : Z) (r :
     if should_use_jar_ciba cfg jcl (match obj with Some _ => true | None => false end) then
       match ciba_jar_decision (jx_cfg jx) c jcl obj with
       | inl e => Ret (OErr e)
-      | inr p => back_tail w n now c p r
+      | inr j => back_tail w n now c (jr_params j) (ref_check cfg (jr_nested_uri j) true)
+                   (andb (jr_nested_uri j) (jr_nested_req j)) r
       end
-    else back_tail w n now c (br_params r) r
+    else back_tail w n now c (br_params r) None false r
   end).
